@@ -2,7 +2,7 @@ CONSTANTS
   Marks = {"none", "skip_serializing", "skip_deserializing"}
   Collisions = {"none", "not3", "xy3", "ab4"}
   Spellings = {"after_list", "between_lists", "merged", "split", "split_rev", "apart"}
-  Idents = {"UserId", "A", "Foo", "FooBar", "Foo2Bar", "HTTPServer", "IOError", "ID", "URL", "HTTP2", "Init", "Default", "None", "Class", "In", "Self_"}
+  Idents = {"<A>nderung", "UserId", "A", "Foo", "FooBar", "Foo2Bar", "HTTPServer", "IOError", "ID", "URL", "HTTP2", "Init", "Default", "None", "Class", "In", "Self_"}
   Renames = {"empty", "none", "x", "foo-bar", "Other_Name", "init", "$ref", "$a_quote_b", "default"}
   Kinds = {"newtype_opt", "unit", "newtype", "struct"}
   RuleSet = {"none", "lowercase", "UPPERCASE", "PascalCase", "camelCase", "snake_case", "SCREAMING_SNAKE_CASE", "kebab-case", "SCREAMING-KEBAB-CASE"}
